@@ -401,12 +401,14 @@ func (g *TxGen) GenRegistry(t *rapid.T) *RegTx {
 			rt.GovernanceModel = registry.GovernanceRuntime
 			toRuntimeGov = true
 		}
-		owner := w.Entities[0]
+		owner := w.Entities[w.Spec.RtOwner%len(w.Entities)]
 		signer := owner
 		unauthorized := ""
 		if rapid.IntRange(0, 2).Draw(t, "badRuntime") == 0 && len(w.Entities) > 1 {
-			signer = w.Entities[rapid.IntRange(1, len(w.Entities)-1).Draw(t, "rtSigner")]
-			unauthorized = "runtime update signed by an entity that does not govern it"
+			if o := w.Entities[rapid.IntRange(0, len(w.Entities)-1).Draw(t, "rtSigner")]; o != owner {
+				signer = o
+				unauthorized = "runtime update signed by an entity that does not govern it"
+			}
 		}
 		d := g.sign(signer.Signer, signer.Address(), registry.MethodRegisterRuntime, &rt, signer.Name)
 		d.Note = "update runtime"
